@@ -214,3 +214,34 @@ Proof.
   eapply ts_eq_trans; [apply ts_concat_proper; [exact Ha | apply ts_eq_refl]|].
   eapply ts_eq_trans; [apply ts_concat_assoc|]. apply ts_concat_id_r. apply ts_invert_right. exact Ei.
 Qed.
+
+(* ------------------------------------------------------------------ extension round 4: node_by_id never looks into sub-trees *)
+Lemma f_erase_id n : eid (f_erase n) = fid n.
+Proof. destruct n; reflexivity. Qed.
+
+Theorem f_nbi_erase : forall id n, option_map f_erase (f_nbi id n) = nbi id (f_erase n).
+Proof.
+  fix IH 2. intros id [i t a l subs ch|i a b subs]; [|reflexivity].
+  cbn [f_erase]. rewrite nbi_group. cbn [f_nbi].
+  induction ch as [|c r IHr]; [reflexivity|].
+  cbn [map]. rewrite f_erase_id. destruct (String.eqb (fid c) id); [reflexivity|].
+  rewrite <- (IH id c). destruct (f_nbi id c); [reflexivity|]. cbn [option_map]. exact IHr.
+Qed.
+
+(* lookup by id on the forest = lookup on the renderable tree; it answers None exactly when the id is empty or no RENDERABLE
+   node carries it - ids carried by nodes of clip-path / mask / pattern sub-trees do not matter *)
+Theorem f_node_by_id_erase root id : option_map f_erase (f_node_by_id root id) = node_by_id (f_erase root) id.
+Proof. unfold f_node_by_id, node_by_id. destruct (String.eqb id ""); [reflexivity|]. apply f_nbi_erase. Qed.
+
+Theorem f_node_by_id_none root id :
+  f_node_by_id root id = None <-> id = ""%string \/ forall n, In n (descendants (f_erase root)) -> eid n <> id.
+Proof.
+  rewrite <- node_by_id_none, <- f_node_by_id_erase. destruct (f_node_by_id root id); cbn; split; congruence.
+Qed.
+
+Theorem f_node_by_id_renderable root id x :
+  f_node_by_id root id = Some x -> id <> ""%string /\ In (f_erase x) (descendants (f_erase root)) /\ fid x = id.
+Proof.
+  intros H. assert (H' : node_by_id (f_erase root) id = Some (f_erase x)) by (rewrite <- f_node_by_id_erase, H; reflexivity).
+  apply node_by_id_sound in H'. rewrite f_erase_id in H'. exact H'.
+Qed.
